@@ -106,6 +106,11 @@ class GenU(Gen04):
                 m["gnb"] = gnb
         return intent
 
+    def reconnect(self, now=False):
+        """the P4Runtime channel is lost; now=True: re-established at once, else by the next request that reaches the datapath"""
+        self.events.append({"k": "reconnect", "now": now})
+        self.intents.append({"op": "reconnect", "kind": "now" if now else "lazy"})
+
     def upd_far_unknown_em(self, lseid):
         s = self.sessions[lseid]
         seq = self._seq()
@@ -292,6 +297,25 @@ def c14_family(rng):
         g.upd_far_em(l, gnb=GNBS[1], flags=2)
         g.upd_far_em(l, gnb=GNBS[2], flags=2)
     hist("second-handover", second)
+
+    # the P4Runtime channel is lost and re-established (new P4rtClient, new StreamChannel, same switch) between flagged updates:
+    # the marker after the re-connect must reach the switch like the one before it
+    def recon(now, twice=False, new_session=False):
+        def b(g):
+            l = g.est04(0, npairs=1, nqers=1, gnb=GNBS[0], dl_action=2)
+            g.upd_far_em(l, gnb=GNBS[1], flags=2)
+            g.reconnect(now)
+            if twice:
+                g.heartbeat(0)
+                g.reconnect(not now)
+            if new_session:
+                l = g.est04(0, npairs=1, nqers=0, gnb=GNBS[3], dl_action=2, filters=[2])
+            g.upd_far_em(l, gnb=GNBS[2], flags=2)
+        return b
+    hist("reconnect-lazy-between-handovers", recon(False))
+    hist("reconnect-now-between-handovers", recon(True))
+    hist("reconnect-twice-between-handovers", recon(False, twice=True))
+    hist("reconnect-then-new-session-handover", recon(True, new_session=True))
     return out
 
 
@@ -373,8 +397,10 @@ def c14_random(rng, em=None):
             dl = [l for l in g.sessions if g.deletable(l) and l not in g.tainted]
             if dl:
                 g.delete(rng.choice(dl))
-        elif r < 0.95:
+        elif r < 0.94:
             g.heartbeat(rng.randrange(g.nconn))
+        elif r < 0.96:
+            g.reconnect(rng.random() < 0.5)
         elif conns:
             c = rng.choice(conns)
             if g.conn_endable(c):
